@@ -317,7 +317,10 @@ pub fn gen_history(
     // scripts starting with 'W' use a wide initial record: made-optional positions far from 0
     // … and with 'X' the widest record the format allows: 128 fields in chunk 0, the last one at position 127 (the
     // position byte of a made-optional step is a negated i8)
-    let n_init = if script.map(|s| s.starts_with('X')).unwrap_or(false) {
+    // … and with 'Z' a record without fields (a unit struct, a unit variant) that grows its first field later
+    let n_init = if script.map(|s| s.starts_with('Z')).unwrap_or(false) {
+        0
+    } else if script.map(|s| s.starts_with('X')).unwrap_or(false) {
         128
     } else if script.map(|s| s.starts_with('W')).unwrap_or(false) {
         18 + rng.below(6) as usize
@@ -329,9 +332,11 @@ pub fn gen_history(
     if let Some(script) = script {
         // directed history: 'a' adds a field and targets it; 'o' / 't' / 'r' make the target optional / transient / removed.
         // The initial target is the last initial field (the last one serialized in chunk 0), declared required.
-        let last = h.initial.len() - 1;
-        h.initial[last].optional = false;
-        let mut target = h.initial[last].name.clone();
+        let mut target = String::new();
+        if let Some(last) = h.initial.len().checked_sub(1) {
+            h.initial[last].optional = false;
+            target = h.initial[last].name.clone();
+        }
         for c in script.chars() {
             match c {
                 'a' => {
